@@ -915,6 +915,11 @@ pub fn generate(seed: u64, tier: Tier, p: &Profile) -> Scenario {
                     // the same asset minted and burnt again in later calls: the entries cancel out
                     plan.pre_tail.push(Op::Mint { wit: wit.clone(), name: name.clone(), qty: -(q as i64), set: false });
                 }
+                if !plutus && wit.how == ScriptUse::Witness && wit.signers.is_none() && g.r.chance(1, 4) {
+                    // later the whole mint is handed back through the old whole-collection setter (now and then with a
+                    // script missing: refused)
+                    plan.pre_tail.push(Op::SetMintLegacy(g.r.chance(1, 3)));
+                }
                 plan.pre.push(Op::Mint { wit, name, qty: q as i64, set: g.r.chance(1, 3) });
             }
         }
@@ -1088,7 +1093,8 @@ pub fn generate(seed: u64, tier: Tier, p: &Profile) -> Scenario {
     if pm(&mut g.r, p.removals) {
         // removals, the deprecated whole-collection setters and the deprecated mint entry points
         for _ in 0..(1 + g.r.below(2)) {
-            match g.r.below(12) {
+            match g.r.below(13) {
+                12 => plan.pre_tail.push(Op::SetMintLegacy(g.r.chance(1, 3))),
                 8..=10 => {
                     // everything of one kind is taken out again - now and then right after the builder was asked for its
                     // figures (a figure it remembers must not survive the removal) - and sometimes one item comes back
